@@ -16,10 +16,15 @@ CLAIMED = {
          "§5 C01", "Lean 4 proof: inductive invariant over all programs of an object-level machine + per-run differential correspondence"),
  "C02": ("Theorems Rx.C02.*_spec (C02a, C02b): for every kernel K of the single-source operators, Kernel.run K s = (Spec.op s).toEvs for ALL item lists, "
          "endings and parameters (induction). Tie: every run compares, case by case, implementation log = ReactiveX list spec (theorem RHS) = chain of "
-         "kernel runs (theorem LHS) = object machine (which executes the same kernels through stdOp) on ~2.4k cases incl. all operator pairs.",
+         "kernel runs (theorem LHS) = object machine (which executes the same kernels through stdOp) on ~2.5k cases incl. all operator pairs. The link kernel "
+         "chain = object machine is itself a theorem: Rx.Sim.stdOp_sim (one operator) and Rx.Chain.chain_sim (chains of ANY length, any well-encoded "
+         "kernels, any ready world: machine log = chainRun); time_interval / timestamp (values abstracted) in C02c.",
          "§5 C02", "Lean 4 proof: kernel = list specification by induction + per-run four-way differential correspondence"),
  "C04": ("Theorems Rx.C04.* (C04k: error passthrough for every non-handler kernel, same payload, terminal last, items before the error delivered; "
-         "C04r: retry/retry_when/on_error_resume_next equal their list specs, subscription counts exact; demat_mat). Tie: differential execution with "
+         "C04r: retry/retry_when/on_error_resume_next equal their list specs, subscription counts exact; demat_mat). REFINEMENT (C04Ref*.lean): the object "
+         "machine's retry, retry_when and on_error_resume_next over flaky / scripted sources refine that mirror from any ready world (retry_refines, "
+         "retryWhen_refines, resume_refines: log, subscription counter, nobody else disturbed), so the C04r statements hold of the machine "
+         "(retry_machine_spec, …_error_identity). Tie: differential execution with "
          "errors injected at every script position, flaky sources, payload identity by a non-Clone payload type.",
          "§5 C04", "Lean 4 proof: generic PassesErrors lemma + induction over attempts + per-run correspondence"),
  "C05": ("Theorems Rx.C05.silent_forever, nothing_after_unsubscribe, unsubscribe_idempotent, is_subscribed_false_forever (generic over all machine "
@@ -39,6 +44,10 @@ CLAIMED = {
          "ready_set_go_no_loss: the pure history machine of each combining operator (mirroring its closures and the StreamController) equals its ReactiveX "
          "list characterisation for ALL well-formed histories and any number of sources. combine_latest and sequence_equal are proved NOT to be the "
          "ReactiveX operators (combine_latest_violated, sequence_equal_violated, with partial theorems) - recorded as known findings F9/F10. "
+         "REFINEMENT (C03Ref*.lean): the object machine's merge, amb, concat, take_until and zip (the call-by-call transliteration of the Rust operators over "
+         "the StreamController and plain Subjects) refine their history machines for EVERY history (merge_refines, amb_refines, concat_refines, "
+         "take_until_refines, zip_refines: log, status, registrations per subject), so the list specs hold of the machine (…_machine_spec); skip_until, "
+         "sample, flat_map, switch_on_next: differential check only. "
          "Tie: on every hot-source history the check compares implementation = history machine = spec, and implementation = object machine on all cases.",
          "§5 C03", "Lean 4 proof: history machines = list specs by induction + per-run three-way differential correspondence"),
  "C06": ("Theorems Rx.C06.*: (kernel layer) every single-source kernel that ends its downstream while being fed has cancelled its upstream, for all inputs; "
